@@ -86,7 +86,9 @@ class LoopCtx:
     def var(self, name):
         v, ok = self.env.lookup(name)
         if not ok:
-            raise KeyError(name)
+            # the contract was written for a loop that has this variable: the code under it is no longer that loop (a loop was
+            # added, removed or rewritten), so the contract does not apply - undecided, never an engine fault
+            raise OutsideSubset(f"loop contract refers to variable {name!r}, which this loop does not have (the loop structure changed)")
         return v
 
     def old(self, name):
